@@ -16,6 +16,7 @@ package main
 import (
 	"fmt"
 	"os"
+	"runtime/pprof"
 	"strconv"
 
 	"verif/harness/internal/vtrace"
@@ -28,6 +29,11 @@ func main() {
 	if len(os.Args) < 3 {
 		fmt.Fprintln(os.Stderr, "usage: vh-vmcontext replay <file> | record-stub <seed> <traces> <len> <out> | record-real <seed> <traces> <out>")
 		os.Exit(2)
+	}
+	if pf := os.Getenv("VH_PROF"); pf != "" {
+		f, _ := os.Create(pf)
+		_ = pprof.StartCPUProfile(f)
+		defer pprof.StopCPUProfile()
 	}
 	switch os.Args[1] {
 	case "replay":
